@@ -96,15 +96,34 @@ class Zip(Term):
         return self._instruction(*(b(arg) for b in self._branches))
 
 
-class Branch(Term, metaclass=abc.ABCMeta):
-    """Base class for branch terms."""
+class Branch(Term):
+    """Branch term sharing the value of a term among all of its (parallel) consumers.
 
-    def __init__(self, queue: typing.Deque[typing.Any], name: str):
+    Whichever replica gets evaluated first computes the value and leaves a copy for each of the others (the
+    evaluation order of the consumers is not known when the expression is being assembled).
+    """
+
+    def __init__(self, queue: typing.Deque[typing.Any], term: Term, replicas: int):
+        assert replicas > 0
         self._queue: typing.Deque[typing.Any] = queue
-        self._name: str = name
+        self._term: Term = term
+        self._replicas: int = replicas
 
     def __repr__(self):
-        return f'{self.__class__.__name__}[{self._name}]'
+        return f'{self.__class__.__name__}[{self._term!r}]'
+
+    def __call__(self, arg: typing.Any) -> typing.Any:
+        if self._queue:
+            return self._queue.popleft()
+        value = self._term(arg)
+        for _ in range(self._replicas):
+            self._queue.append(value)  # assuming we are duplicating just the reference
+        return value
+
+    @property
+    def queue(self) -> typing.Deque[typing.Any]:
+        """The queue shared with the sibling replicas."""
+        return self._queue
 
     @classmethod
     def fork(cls, term: Term, szout: int = 1) -> typing.Iterable[Term]:
@@ -112,35 +131,8 @@ class Branch(Term, metaclass=abc.ABCMeta):
         if szout > 1:
             replicas = szout - 1
             queue = collections.deque(maxlen=replicas)
-            return [Push(queue, term, replicas), *(Pop(queue, repr(term)) for _ in range(replicas))]
+            return [cls(queue, term, replicas) for _ in range(szout)]
         return [term]
-
-
-class Push(Branch):
-    """Helper branch term for producing value replicas to make them available in parallel branches."""
-
-    def __init__(self, queue: typing.Deque[typing.Any], term: Term, replicas: int):
-        assert replicas > 0
-        super().__init__(queue, repr(term))
-        self._term: Term = term
-        self._replicas: int = replicas
-
-    def __call__(self, arg: typing.Any) -> typing.Any:
-        assert not self._queue, 'Outstanding elements'
-        value = self._term(arg)
-        for _ in range(self._replicas):
-            self._queue.append(value)  # assuming we are duplicating just the reference
-        return value
-
-
-class Pop(Branch):
-    """Helper branch term for accessing the replicated values created in parallel branch."""
-
-    def __call__(self, arg: typing.Any) -> typing.Any:
-        return self._queue.popleft()
-
-    def __del__(self):
-        assert not self._queue, 'Outstanding elements'
 
 
 class Expression(Term):
@@ -157,17 +149,29 @@ class Expression(Term):
         dag = self._build(symbols)
         assert len(dag) > 0 and dag[-1].szout == 0 and not dag[0].args, 'Invalid DAG'
         providers: typing.Mapping[Term, typing.Deque[Term]] = {n.term: collections.deque([n.term]) for n in dag}
+        queues: list[typing.Deque[typing.Any]] = []
+
+        def fork(term: Term, szout: int) -> typing.Iterable[Term]:
+            """Fork the term for all of its consumers keeping track of the replica queues."""
+            forks = Branch.fork(term, szout)
+            queues.extend(f.queue for f in forks[:1] if isinstance(f, Branch))
+            return forks
 
         for node in dag[1:]:
             args = [providers[a].popleft() for a in node.args]
             term = (Zip if len(args) > 1 else Chain)(providers[node.term].popleft(), *args)
-            providers[node.term].extend(Branch.fork(term, node.szout))
+            providers[node.term].extend(fork(term, node.szout))
         assert len(providers[dag[-1].term]) == 1
         self._term: Term = providers[dag[-1].term].popleft()
         assert not any(providers.values()), 'Outstanding providers'
+        self._queues: typing.Sequence[typing.Deque[typing.Any]] = tuple(queues)
 
     def __call__(self, arg: typing.Any) -> typing.Any:
-        return self._term(arg)
+        try:
+            return self._term(arg)
+        finally:
+            for queue in self._queues:  # a failed call must not leak its replicas into the next one
+                queue.clear()
 
     def __repr__(self):
         return repr(self._term)
